@@ -407,6 +407,10 @@ pub struct FaultPlan {
     /// gone (a big process is not torn down in an instant): whoever reaps it has to wait for it
     #[serde(default)]
     pub exit_lag_ns: u64,
+    /// the n-th kill() made inside a library call fails with this errno and delivers nothing
+    /// (EPERM: the child runs under another identity and the caller has lost the right to signal it)
+    #[serde(default)]
+    pub kill_fail: Option<(u32, i32)>,
 }
 
 #[derive(Clone, Debug, Default)]
@@ -455,6 +459,7 @@ pub struct Kernel {
     /// calls on fds 0..2 in parent context (C05)
     /// would-block events of parent threads inside library calls, per kind mask (EINTR injection)
     pub n_wouldblock: u32,
+    pub n_kill_in_lib: u32,
     pub std_touched: Vec<String>,
     /// lowest number for files opened by the harness (the caller of the library)
     pub harness_fd_min: i32,
@@ -576,6 +581,7 @@ impl Kernel {
             probes: BTreeMap::new(),
             par_mask: [0; 8],
             n_wouldblock: 0,
+            n_kill_in_lib: 0,
             std_touched: vec![],
             harness_fd_min: 3,
             ebadf: vec![],
@@ -1316,7 +1322,19 @@ impl Kernel {
             Ent::Par(t) => self.in_lib[t as usize],
             _ => false,
         };
-        let res = if pid <= 0 {
+        let mut injected = None;
+        if in_lib && pid > 0 {
+            if let Some((n, e)) = self.faults.kill_fail {
+                self.n_kill_in_lib += 1;
+                if self.n_kill_in_lib == n && self.procs.get(&pid).map(|p| p.alive()).unwrap_or(false) {
+                    self.fcount.hit("kill_fail");
+                    injected = Some(e);
+                }
+            }
+        }
+        let res = if let Some(e) = injected {
+            Err(e)
+        } else if pid <= 0 {
             // group / broadcast: logged, nothing delivered (it is a violation by itself)
             Ok(())
         } else if !(0..=64).contains(&sig) {
